@@ -6,6 +6,7 @@ import (
 	"log/slog"
 	"math/big"
 	"reflect"
+	"sort"
 	"time"
 
 	"github.com/google/jsonschema-go/jsonschema"
@@ -43,12 +44,12 @@ type tBasicRest struct {
 }
 
 type tTags struct {
-	Named   int     `json:"named"`
-	Dash    int     `json:"-"`
-	DashC   int     `json:"-,"`
-	Empty   string  `json:",omitempty"`
-	Zero    int     `json:"zero,omitzero"`
-	Both    *int    `json:"both,omitempty,omitzero"`
+	Named   int    `json:"named"`
+	Dash    int    `json:"-"`
+	DashC   int    `json:"-,"`
+	Empty   string `json:",omitempty"`
+	Zero    int    `json:"zero,omitzero"`
+	Both    *int   `json:"both,omitempty,omitzero"`
 	NoTag   float64
 	private int
 }
@@ -191,8 +192,8 @@ type tNameTaggedWins struct {
 }
 
 type tNameDeepConflict struct {
-	tEmbExtra          // by, at
-	tEmbBy2            // by (same depth, both tagged): neither is emitted
+	tEmbExtra     // by, at
+	tEmbBy2       // by (same depth, both tagged): neither is emitted
 	Q         int `json:"q"`
 }
 
@@ -203,7 +204,7 @@ type tEmbBy2 struct {
 type tStd struct {
 	T  time.Time
 	L  slog.Level
-	BI *big.Int // (by value its pointer-receiver MarshalJSON is not called in a non-addressable position: outside the domain)
+	BI *big.Int   // (by value its pointer-receiver MarshalJSON is not called in a non-addressable position: outside the domain)
 	PT *time.Time `json:"pt,omitempty"`
 }
 
@@ -237,11 +238,24 @@ type tWeirdTags struct {
 }
 
 type tBad struct {
-	C chan int
-	F func()
-	K map[int]string
-	Z complex128
+	C  chan int
+	F  func()
+	K  map[int]string
+	Z  complex128
 	OK int
+}
+
+// unsupported kinds below containers and pointers ("at any depth")
+type tBadNested struct {
+	M   map[string]func()
+	MM  map[string]map[string]chan int
+	S   []func()
+	SM  []map[string]func()
+	A   [2]chan int
+	P   *chan int
+	PM  *map[string][]func()
+	OK  int
+	OK2 map[string][]int
 }
 
 // TypeCase is one member of F-types.
@@ -383,6 +397,20 @@ func ForScaffold() (int, []string) {
 		s, err := jsonschema.ForType(reflect.TypeFor[tBad](), &jsonschema.ForOptions{IgnoreInvalidTypes: true})
 		if err != nil || s == nil || len(s.Properties) != 1 || s.Properties["OK"] == nil {
 			bad = append(bad, fmt.Sprintf("tBad: IgnoreInvalidTypes should keep only OK (err %v)", err))
+		}
+		if _, err := jsonschema.ForType(reflect.TypeFor[tBadNested](), nil); err == nil {
+			bad = append(bad, "tBadNested: no error for unsupported kinds below containers")
+		}
+		s, err = jsonschema.ForType(reflect.TypeFor[tBadNested](), &jsonschema.ForOptions{IgnoreInvalidTypes: true})
+		if err != nil || s == nil || len(s.Properties) != 2 || s.Properties["OK"] == nil || s.Properties["OK2"] == nil || len(s.Required) != 2 || len(s.PropertyOrder) != 2 {
+			names := []string{}
+			if s != nil {
+				for k := range s.Properties {
+					names = append(names, k)
+				}
+				sort.Strings(names)
+			}
+			bad = append(bad, fmt.Sprintf("tBadNested: IgnoreInvalidTypes should keep only OK and OK2 (err %v, properties %v)", err, names))
 		}
 	}()
 	select {
